@@ -698,7 +698,7 @@ def run_doc(ctx, out, base: L.Base, doc, flavour, perms, req, pending):
                  nontriv)
         out.hit("impl:" + (st if st == "ok" else res["error"]))
         out.traces_validated += 1
-        req.append({"op": "apply", "dflt": L.DFLT, "graph": base.graph, "doc": d})
+        req.append({"op": "apply", "mm": "gen", "graph": base.graph, "doc": d})
         pending.append((base, doc, list(perm), flavour, iv))
         # (b) against the order-free denotation
         case = {"model": base.key, "doc": doc, "order": list(perm), "flavour": flavour}
